@@ -311,13 +311,13 @@ Proof.
   unfold akeys. rewrite map_map. apply map_ext. intros [k [| |r]]; reflexivity.
 Qed.
 
-Lemma tick_g s t b dt log s1 W c :
-  Inv s [] b -> RelG s t [] -> wake s dt log = Some (s1, false) ->
+Lemma tick_g ord s t b dt log s1 W c :
+  Inv s [] b -> RelG s t [] -> wake ord s dt log = Some (s1, false) ->
   Inv s1 [] (b ++ W) ->
   RelG (set_active s1 (rotate1 (active s1))) (tick dt (flagwf c t)) (b ++ W).
 Proof.
   intros HI [ND HG] Hw HI1.
-  destruct (wake_sim _ _ _ _ _ _ HI Hw) as (_ & W' & _ & _ & _ & _ & _ & _ & _ & Hraw).
+  destruct (wake_sim _ _ _ _ _ _ _ HI Hw) as (_ & W' & _ & _ & _ & _ & _ & _ & _ & Hraw).
   constructor; unfold tick; sproj.
   - now rewrite akeys_tick_gh.
   - intros x Hx1 Hx2. destruct (Hraw x Hx2 Hx1) as (Hk & Eg & Hdl).
@@ -362,8 +362,8 @@ Proof.
 Qed.
 
 (* ---- operations and traces ------------------------------------------------------ *)
-Lemma step_g sc s t b o ob fut s' :
-  Inv s [] b -> Rel s t [] b -> RelG s t [] -> step sc s o ob fut = Some s' ->
+Lemma step_g ord sc s t b o ob s' :
+  Inv s [] b -> Rel s t [] b -> RelG s t [] -> step ord sc s o ob = Some s' ->
   okwf (sp_step sc t o ob) = true ->
   RelG s' (sp_step sc t o ob) [].
 Proof.
@@ -382,15 +382,15 @@ Proof.
     eapply (action_g s t [] b [] (AState g)); eauto; reflexivity.
   - destruct (oz_eqb v _); [|discriminate]. injection Hs as <-.
     eapply RelG_ext; [exact HG|reflexivity].
-  - unfold process in Hs. destruct (wake s dt (log ++ fut)) as [[s1 e1]|] eqn:Ew; [|discriminate].
-    destruct (wake_sim _ _ _ _ _ _ HI Ew) as (-> & W & HI1 & Hst & HW & Hpc & Hpv & Hdn & HL1 & _).
+  - unfold process in Hs. destruct (wake ord s dt log) as [[s1 e1]|] eqn:Ew; [|discriminate].
+    destruct (wake_sim _ _ _ _ _ _ _ HI Ew) as (-> & W & HI1 & Hst & HW & Hpc & Hpv & Hdn & HL1 & _).
     destruct (loop sc _ _ log) as [[[s2 log'] e]|] eqn:El; [|discriminate].
     destruct log' as [|? ?]; [|discriminate].
     destruct (outcome_eqb exc e) eqn:Ee; [|discriminate].
     injection Hs as <-.
     apply okwf_frame_end in Hwf.
     destruct (tick_rel s t b dt s1 W (0 <=? dt) HR HI1 Hst HW Hpc Hpv Hdn) as [HI2 HR2].
-    pose proof (tick_g s t b dt (log ++ fut) s1 W (0 <=? dt) HI HG Ew HI1) as HG2.
+    pose proof (tick_g ord s t b dt log s1 W (0 <=? dt) HI HG Ew HI1) as HG2.
     pose proof (loop_g sc _ _ _ _ _ _ _ _ HI2 HR2 HG2 eq_refl El Hwf) as HG3.
     destruct (loop_sim sc _ _ _ _ _ _ _ _ HI2 HR2 eq_refl El Hwf) as (_ & b' & HI3 & _).
     eapply frame_end_g; eauto.
@@ -403,10 +403,10 @@ Lemma run_g sc tr : forall s t b s',
 Proof.
   induction tr as [|[o ob] tr IH]; intros s t b s' HI HR HG Hr Hwf Hab.
   - injection Hr as <-. exact HG.
-  - cbn [run] in Hr. destruct (step sc s o ob (future tr)) as [s1|] eqn:Es; [|discriminate].
-    cbn [sp_run] in *. pose proof (okwf_sp_run_mono _ _ _ Hwf) as Hwf1.
+  - cbn [run] in Hr. cbn [sp_run] in *. pose proof (okwf_sp_run_mono _ _ _ Hwf) as Hwf1.
+    destruct (run_choice _ _ _ _ _ _ _ Hr) as (c & s1 & Es & Hr1).
     destruct (step_sim _ _ _ _ _ _ _ _ HI HR Es Hwf1 Hab) as (b1 & HI1 & HR1 & Hab1 & _).
-    eapply (IH s1 _ b1); [exact HI1|exact HR1| |exact Hr|exact Hwf|exact Hab1].
+    eapply (IH s1 _ b1); [exact HI1|exact HR1| |exact Hr1|exact Hwf|exact Hab1].
     eapply step_g; [exact HI|exact HR|exact HG|exact Es|exact Hwf1].
 Qed.
 
@@ -440,13 +440,6 @@ Proof.
     destruct (alookup g (t_ghost t)); auto; try destruct HG.
   - left. apply amem_keys. unfold amem. rewrite (r_st _ _ _ _ HR). unfold abs_st.
     unfold amem in Hk. destruct (alookup g (gens s)) as [[rid|]|]; try discriminate; now rewrite Ek.
-Qed.
-
-Lemma subz_In l m : subz l m = true <-> forall x, In x l -> In x m.
-Proof.
-  unfold subz. rewrite forallb_forall. split; intros H x Hx.
-  - apply memz_In. auto.
-  - apply memz_In. auto.
 Qed.
 
 (* C09 *)
